@@ -112,7 +112,19 @@ fn c04_one(t: &str, si: usize, c: usize, r: &mut Rng, stats: &mut Stats) {
             return;
         }
     }
-    let (text, expected) = wrap(c, &s, t, ss, r);
+    let (mut text, expected) = wrap(c, &s, t, ss, r);
+    // line-break style: the value does not depend on how the breaks of the presentation are written
+    match r.below(8) {
+        0 | 1 => {
+            text = text.replace('\n', "\r\n");
+            stats.cnt("presentations_with_crlf_breaks", 1);
+        }
+        2 => {
+            text = text.replace('\n', "\r");
+            stats.cnt("presentations_with_cr_breaks", 1);
+        }
+        _ => {}
+    }
     let what = format!("{}/{}", ["plain", "single", "double"][si], CONTEXTS[c]);
     c04_check(&text, &expected, t, stats, &what);
     stats.cnt(&format!("style_{}", ["plain", "single", "double"][si]), 1);
@@ -315,6 +327,17 @@ fn c05_one(lines: &[String], folded: bool, chomp: Chomp, parent: usize, eof: usi
         }
     }
     let _ = &mut expected;
+    match r.below(8) {
+        0 | 1 => {
+            text = text.replace('\n', "\r\n");
+            stats.cnt("documents_with_crlf_breaks", 1);
+        }
+        2 => {
+            text = text.replace('\n', "\r");
+            stats.cnt("documents_with_cr_breaks", 1);
+        }
+        _ => {}
+    }
     let style = if folded { ScalarStyle::Folded } else { ScalarStyle::Literal };
     let what = format!("{}/{}/{}", if folded { "folded" } else { "literal" }, PARENTS[parent], EOF_SHAPES[shape]);
     stats.cnt(&format!("parent_{}", PARENTS[parent]), 1);
